@@ -397,7 +397,7 @@ class ConsoleOutput:
     def write(self, s):
         self.buffer += s
         while self.buffer.find("\n") != -1:
-            print(self.buffer[0, self.buffer.find("\n")], end="")
+            print(self.buffer[0:self.buffer.find("\n")+1], end="")
             self.buffer = self.buffer[self.buffer.find("\n")+1:]
 
     def writeLine(self, s):
